@@ -46,6 +46,8 @@ func ipamHistSystems(cloud bool) []*HistSys {
 	for _, c := range []wkClass{{"stspfx", ""}, {"stspfx", "immutable"}, {"barepfx", ""}} {
 		out = append(out, &HistSys{Class: c, Cfg: cfgTwoPools(cloud), NPods: 2, Replicas: 11, Ops: ops, PrefixName: "allbound", Prefix: bound})
 	}
+	// a pool whose name contains the key separator (pool names are free text)
+	out = append(out, &HistSys{Class: wkClass{"dppoolu", ""}, Cfg: cfgTwoPools(cloud), NPods: 2, Replicas: 2, Ops: ops, PrefixName: "allbound", Prefix: bound})
 	// two pools that share one pod subnet (disjoint ranges, different node subnets), with restarts in the alphabet: which pool an
 	// allocated IP belongs to is decided again whenever the tables are rebuilt
 	opsR := map[string]bool{"restart": true}
